@@ -248,7 +248,20 @@ func (d *driver) runPair(p concPair) (*StepObs, *StepObs, *lockstep, []cw.Call) 
 }
 
 // encodeCalls: the intercepted calls as the model sees them, and the model-level address of the faulted one.
+// A fault that hit the plugin's usage write INSIDE a resource-manager call (Party "plugin") makes that manager call
+// fail without any effect: for the model it is the fail-before fault of the enclosing manager call.
 func (d *driver) encodeCalls(x xlat, log []cw.Call, obs *StepObs) {
+	inner := map[int]bool{} // Seq of the manager call enclosing a faulted plugin call
+	for i, c := range log {
+		if c.Party == "plugin" && c.Faulted {
+			for j := i - 1; j >= 0; j-- {
+				if log[j].Party == "rmgr" && log[j].Node == c.Node && !log[j].Bg {
+					inner[log[j].Seq] = true
+					break
+				}
+			}
+		}
+	}
 	counts := map[string]int{}
 	for _, c := range log {
 		if c.Bg {
@@ -259,13 +272,17 @@ func (d *driver) encodeCalls(x xlat, log []cw.Call, obs *StepObs) {
 			continue
 		}
 		k := ck.Term
-		if c.Faulted {
+		faulted := c.Faulted || inner[c.Seq]
+		if faulted {
 			obs.hitCoq = "(Some (mkFault (KCall " + k + ") " + strconv.Itoa(counts[k]) + " FailBefore))"
 			obs.Hit = c.Party + "/" + c.Method + "/" + c.Target + "#" + strconv.Itoa(counts[k])
+			if inner[c.Seq] {
+				obs.Hit += "(plugin write)"
+			}
 		}
 		counts[k]++
 		fl := "0"
-		if c.Faulted {
+		if faulted {
 			fl = "1"
 		}
 		obs.Calls = append(obs.Calls, strconv.Itoa(len(ck.Enc)+1), fl)
